@@ -407,7 +407,17 @@ impl<T: Config> P2PSession<T> {
         // check time sync between clients and send wait recommendation, if appropriate
         self.check_wait_recommendation();
 
+        // wait recommendations and desync notifications must respect the event queue bound as well
+        self.trim_event_queue();
+
         Ok(requests)
+    }
+
+    /// Discards the oldest events if the event queue has grown beyond its maximum size.
+    fn trim_event_queue(&mut self) {
+        while self.event_queue.len() > MAX_EVENT_QUEUE_SIZE {
+            self.event_queue.pop_front();
+        }
     }
 
     /// Should be called periodically by your application to give GGRS a chance to do internal work.
